@@ -7,6 +7,13 @@ import SurfProofs.Lemmas.ShapeOps
 `Shape.chain ops (Shape.from h w)` is the shape the code computes for a chain of `view`/`transpose`
 steps on an `h × w` surface; `specChain ops (reshape h w data)` is the window the same steps select on
 the plain matrix (`List (List α)`, Python slicing, matrix transpose — no strides, no offsets).
+
+Roots: a `SurfaceOwned` (`new`, `new_with`: `data.length = h * w`; `from_vec`: `h * w ≤ data.length`), i.e.
+`Shape::from(size)` over a slice that is long enough.  A `SurfaceView::new` / `SurfaceMutView::new` with a
+caller-chosen `Shape` (e.g. zero strides) is outside of the theorems: the crate itself only passes
+shapes obtained from a surface by `Shape::view` there, which `Shape.chain` covers.
+`hbig : h * w < usizeMax` (the iterator index is a saturating `usize`) holds for every slice that can be
+allocated.
 -/
 namespace SurfProofs.C07
 open SurfModel.Slice SurfModel.Shape SurfProofs.Lemmas.Shape
@@ -15,6 +22,24 @@ variable {α : Type}
 
 /-- the matrix of cell numbers of an `h × w` surface: entry `(r, c)` is `r * w + c` -/
 def indexMatrix (h w : Nat) : List (List Nat) := reshape h w (List.range (h * w))
+
+/-- a view of a root with fewer than `usize::MAX` cells has fewer than `usize::MAX` cells -/
+theorem window_lt (h w : Nat) (ops : List Op) (hbig : h * w < usizeMax) :
+    (Shape.chain ops (Shape.from h w)).height * (Shape.chain ops (Shape.from h w)).width < usizeMax :=
+  Nat.lt_of_le_of_lt (size_chain ops (Shape.from h w)) hbig
+
+/-- **C07, `Shape::view` never underflows.** The three `usize` subtractions of `Shape::view`
+(`col_end - col_start`, `row_end - row_start`, `row_end - 1`) are exact: whatever `view_bounds` returns
+satisfies `start < end ≤ extent` (this is C08_range seen from the caller). -/
+theorem C07_view_no_underflow (sh : Shape) (rows cols : Sel) (cs ce rs re : Nat)
+    (hc : viewBounds cols sh.width = some (cs, ce)) (hr : viewBounds rows sh.height = some (rs, re)) :
+    cs < ce ∧ ce ≤ sh.width ∧ rs < re ∧ re ≤ sh.height ∧ 1 ≤ re ∧
+    (sh.view rows cols).width + cs = ce ∧ (sh.view rows cols).height + rs = re := by
+  have ⟨h1, h2⟩ := SurfProofs.C08.C08_range cols sh.width cs ce hc
+  have ⟨h3, h4⟩ := SurfProofs.C08.C08_range rows sh.height rs re hr
+  simp only [Shape.view, hc, hr]
+  omega
+example : viewBounds (.to (-1)) 4 = some (0, 3) ∧ viewBounds (.from 1) 3 = some (1, 3) := by decide
 
 /-- **C07, invariant.** Every shape reachable from `Shape::from(size)` by `view`/`transpose` keeps all
 in-window offsets inside the root's `h * w` cells and satisfies the stride invariant. -/
@@ -41,7 +66,7 @@ theorem C07_injective (h w : Nat) (ops : List Op) (r1 c1 r2 c2 : Nat) :
 
 /-- **C07, window.** Reading position `(r, c)` through the view gives entry `(r, c)` of the window the
 same chain selects on the plain matrix — for every position, inside or outside. -/
-theorem C07_window (h w : Nat) (ops : List Op) (data : List α) (hlen : data.length = h * w) (r c : Nat) :
+theorem C07_window (h w : Nat) (ops : List Op) (data : List α) (hlen : h * w ≤ data.length) (r c : Nat) :
     (get (Shape.chain ops (Shape.from h w)) data r c).map (·.2)
       = cellAt (specChain ops (reshape h w data)) r c :=
   (rel_chain ops (rel_root h w data hlen)).get_eq r c
@@ -61,13 +86,14 @@ theorem C07_window_offset (h w : Nat) (ops : List Op) (r c : Nat) :
 
 /-- **C07, presence.** `get` is `some` exactly inside the window (and then it is the cell at the
 shape's offset); positions outside are reported absent. -/
-theorem C07_get_some_iff (h w : Nat) (ops : List Op) (data : List α) (hlen : data.length = h * w) (r c : Nat) :
+theorem C07_get_some_iff (h w : Nat) (ops : List Op) (data : List α) (hlen : h * w ≤ data.length) (r c : Nat) :
     let sh := Shape.chain ops (Shape.from h w)
     ((get sh data r c).isSome ↔ (r < sh.height ∧ c < sh.width)) ∧
-    (∀ off x, get sh data r c = some (off, x) → off = sh.offset r c ∧ data[off]? = some x) := by
+    (∀ off x, get sh data r c = some (off, x) → off = sh.offset r c ∧ data[off]? = some x) ∧
+    getMut sh data r c = get sh data r c := by
   intro sh
   have R := rel_chain ops (rel_root h w data hlen)
-  constructor
+  refine ⟨?_, ?_, rfl⟩
   · constructor
     · intro hs
       by_cases hin : r < sh.height ∧ c < sh.width
@@ -99,7 +125,7 @@ theorem C07_get_some_iff (h w : Nat) (ops : List Op) (data : List α) (hlen : da
 
 /-- **C07, dimensions.** A window with cells has exactly the dimensions of the matrix window; a window
 without cells corresponds to a matrix window without cells. -/
-theorem C07_window_dims (h w : Nat) (ops : List Op) (data : List α) (hlen : data.length = h * w) :
+theorem C07_window_dims (h w : Nat) (ops : List Op) (data : List α) (hlen : h * w ≤ data.length) :
     let sh := Shape.chain ops (Shape.from h w)
     let W := specChain ops (reshape h w data)
     (sh.height * sh.width ≠ 0 → W.length = sh.height ∧ ∀ row ∈ W, row.length = sh.width) ∧
@@ -113,7 +139,8 @@ theorem C07_window_dims (h w : Nat) (ops : List Op) (data : List α) (hlen : dat
 /-- **C07, iteration.** `iter` (and `iter_mut`) terminate within the fuel and yield exactly
 `height * width` items: the cells of the matrix window in row-major order (`W.flatten`), at the offsets
 of the matrix window of cell numbers (`I.flatten`), every offset once. -/
-theorem C07_iter (h w : Nat) (ops : List Op) (data : List α) (hlen : data.length = h * w) :
+theorem C07_iter (h w : Nat) (ops : List Op) (data : List α) (hlen : h * w ≤ data.length)
+    (hbig : h * w < usizeMax) :
     let sh := Shape.chain ops (Shape.from h w)
     let I := (specChain ops (indexMatrix h w)).flatten
     let W := (specChain ops (reshape h w data)).flatten
@@ -124,58 +151,95 @@ theorem C07_iter (h w : Nat) (ops : List Op) (data : List α) (hlen : data.lengt
   have R := rel_chain ops (rel_root h w data hlen)
   have RI := rel_chain ops (rel_root h w (List.range (h * w)) (by simp))
   have S := strides_chain ops (strides_root h w)
+  have hb := window_lt h w ops hbig
   have hI : I = offs sh := RI.index_flat
   rw [hI]
-  exact ⟨iter_spec R, iterMut_spec R, R.zip_fst, R.zip_snd, offs_length sh, R.flat_length, offs_nodup S⟩
+  exact ⟨iter_spec R hb, iterMut_spec R hb, R.zip_fst, R.zip_snd, offs_length sh, R.flat_length, offs_nodup S⟩
 
-/-- **C07, `Iterator::nth`.** From any iterator state, `nth(n)` skips `n` cells of the row-major window
-and yields the next one (or nothing beyond the end) — for `iter` and for the `unsafe` `iter_mut`. -/
-theorem C07_nth (h w : Nat) (ops : List Op) (data : List α) (hlen : data.length = h * w) (index n : Nat) :
+/-- **C07, `Iterator::nth`.** From any iterator state and for every `n` (in particular every
+`n ≤ usize::MAX`), `nth(n)` skips `n` cells of the row-major window and yields the next one, or nothing
+beyond the end — for `iter` and for the `unsafe` `iter_mut`.  The index saturates at `usize::MAX` instead
+of wrapping, and an iterator whose index has reached `usize::MAX` never yields anything again (no cell is
+ever handed out twice by one iterator: the yielded position `index + n` is strictly beyond all earlier
+ones). -/
+theorem C07_nth (h w : Nat) (ops : List Op) (data : List α) (hlen : h * w ≤ data.length)
+    (hbig : h * w < usizeMax) (index n : Nat) :
     let sh := Shape.chain ops (Shape.from h w)
     let I := (specChain ops (indexMatrix h w)).flatten
     let W := (specChain ops (reshape h w data)).flatten
-    iterNth sh data index n = (index + n + 1, (I.zip W)[index + n]?) ∧
-    iterMutNth sh data.length index n = (index + n + 1, I[index + n]?) := by
+    iterNth sh data index n = (min (index + n + 1) usizeMax, (I.zip W)[index + n]?) ∧
+    iterMutNth sh data.length index n = (min (index + n + 1) usizeMax, I[index + n]?) ∧
+    (usizeMax ≤ index → iterNth sh data index n = (usizeMax, none) ∧
+      iterMutNth sh data.length index n = (usizeMax, none)) := by
   intro sh I W
   have R := rel_chain ops (rel_root h w data hlen)
   have RI := rel_chain ops (rel_root h w (List.range (h * w)) (by simp))
+  have hb := window_lt h w ops hbig
   have hI : I = offs sh := RI.index_flat
   rw [hI]
-  exact ⟨iterNth_spec R index n, iterMutNth_spec R index n⟩
+  refine ⟨iterNth_spec R hb index n, iterMutNth_spec R hb index n, ?_⟩
+  intro hsat
+  have hb' : sh.height * sh.width < usizeMax := hb
+  have hge : sh.height * sh.width ≤ index + n := by omega
+  have hmin : min (index + n + 1) usizeMax = usizeMax := by omega
+  have h1 : ((offs sh).zip W)[index + n]? = none :=
+    List.getElem?_eq_none (by rw [R.zip_length]; exact hge)
+  have h2 : (offs sh)[index + n]? = none :=
+    List.getElem?_eq_none (by rw [offs_length]; exact hge)
+  rw [iterNth_spec R hb index n, iterMutNth_spec R hb index n, hmin, h1, h2]
+  exact ⟨rfl, rfl⟩
 
-/-- **C07, mutators.** `fill`, `clear`, `fill_with`, `insert` never panic, write exactly the cells of the
-window (`touched` is the row-major list `I` of the window's offsets, each once — or, for `insert`, the
-part of it the items reach), give every written cell the intended value and leave every other cell of
-the parent unchanged; `map` reads exactly the window's cells, each once, and produces the window
-row-major. `Updated` is defined in `SurfProofs/Lemmas/ShapeOps.lean`. -/
-theorem C07_mutators (h w : Nat) (ops : List Op) (data : List α) (hlen : data.length = h * w) :
+/-- **C07, mutators.** `fill`, `clear`, `fill_with`, `insert` never panic (`insert`: unless its index
+computation overflows `usize`), write exactly the cells of the window (`touched` is the row-major list
+`I` of the window's offsets, each once — or, for `insert`, the part of it the items reach), give every
+written cell the intended value and leave every other cell of the parent unchanged; `set` panics exactly
+for positions outside of the window and otherwise writes exactly the window's cell; `map` reads exactly
+the window's cells, each once, and produces the window row-major. `Updated` is defined in
+`SurfProofs/Lemmas/ShapeOps.lean`. -/
+theorem C07_mutators (h w : Nat) (ops : List Op) (data : List α) (hlen : h * w ≤ data.length)
+    (hbig : h * w < usizeMax) :
     let sh := Shape.chain ops (Shape.from h w)
-    let I := (specChain ops (indexMatrix h w)).flatten
-    let W := (specChain ops (reshape h w data)).flatten
+    let Im := specChain ops (indexMatrix h w)
+    let Wm := specChain ops (reshape h w data)
+    let I := Im.flatten
+    let W := Wm.flatten
     I.Nodup ∧ (∀ o ∈ I, o < h * w) ∧
     (∀ item, ∃ st, fill sh data item = some st ∧ st.touched = I ∧ Updated data st.data I (fun _ _ => item)) ∧
     (∀ dflt, ∃ st, clear sh data dflt = some st ∧ st.touched = I ∧ Updated data st.data I (fun _ _ => dflt)) ∧
     (∀ dflt f, ∃ st, fillWith sh data dflt f = some st ∧ st.touched = I ∧
       Updated data st.data I (fun k x => f (k / sh.width) (k % sh.width) x)) ∧
     (∀ row col items,
-      let ws := (I.drop (row * sh.width + col)).zip items
-      let st := SurfModel.Shape.insert sh data row col items
-      st.touched = ws.map (·.1) ∧ st.data.length = data.length ∧
-      (∀ i, i ∉ ws.map (·.1) → st.data[i]? = data[i]?) ∧ (∀ w ∈ ws, st.data[w.1]? = some w.2)) ∧
+      (row * sh.width + col > usizeMax → SurfModel.Shape.insert sh data row col items = none) ∧
+      (row * sh.width + col ≤ usizeMax →
+        ∃ st, SurfModel.Shape.insert sh data row col items = some st ∧
+          let ws := (I.drop (row * sh.width + col)).zip items
+          st.touched = ws.map (·.1) ∧ st.data.length = data.length ∧
+          (∀ i, i ∉ ws.map (·.1) → st.data[i]? = data[i]?) ∧ (∀ w ∈ ws, st.data[w.1]? = some w.2))) ∧
+    (∀ row col item,
+      (¬ (row < sh.height ∧ col < sh.width) → SurfModel.Shape.set sh data row col item = none) ∧
+      (row < sh.height ∧ col < sh.width → ∃ off old, cellAt Im row col = some off ∧ cellAt Wm row col = some old ∧
+        SurfModel.Shape.set sh data row col item = some ({ data := data.set off item, touched := [off] }, old))) ∧
     (∀ (β : Type) (f : Nat → Nat → α → β),
       map sh data f = some (W.mapIdx (fun k x => f (k / sh.width) (k % sh.width) x), I)) := by
-  intro sh I W
+  intro sh Im Wm I W
   have R := rel_chain ops (rel_root h w data hlen)
   have RI := rel_chain ops (rel_root h w (List.range (h * w)) (by simp))
   have S := strides_chain ops (strides_root h w)
+  have hb := window_lt h w ops hbig
   have hI : I = offs sh := RI.index_flat
   rw [hI]
   refine ⟨offs_nodup S, ?_, fun item => fill_spec R S item, fun d => clear_spec R S d,
-    fun d f => fillWith_spec R S d f, fun row col items => insert_spec R S row col items,
+    fun d f => fillWith_spec R S d f, fun row col items => insert_spec R S hb row col items, ?_,
     fun β f => map_spec R f⟩
-  intro o ho
-  have := R.offs_lt o ho
-  omega
+  · intro o ho
+    have := RI.offs_lt o ho
+    simpa using this
+  · intro row col item
+    have ⟨s1, s2⟩ := set_spec R row col item
+    refine ⟨s1, fun hin => ?_⟩
+    obtain ⟨old, hold, hset⟩ := s2 hin
+    refine ⟨sh.offset row col, old, ?_, hold, hset⟩
+    exact C07_window_offset h w ops row col hin.1 hin.2
 
 /-- **C07, `is_empty`.** A reachable view reports itself empty exactly when its window has no cells. -/
 theorem C07_is_empty (h w : Nat) (ops : List Op) :
@@ -183,11 +247,11 @@ theorem C07_is_empty (h w : Nat) (ops : List Op) :
     sh.isEmpty = true ↔ sh.height * sh.width = 0 :=
   ends_chain ops (ends_root h w)
 
-/-! Non-vacuity (the only hypothesis of the theorems is `data.length = h * w`): a 3 × 4 surface holding
+/-! Non-vacuity (the hypotheses of the theorems are `h * w ≤ data.length` and `h * w < usizeMax`): a 3 × 4 surface holding
 1 … 12, transposed, rows `1..`, columns `..-1`, transposed back — a proper, strided window. -/
 def exOps : List Op := [.transpose, .view (.from 1) (.to (-1)), .transpose]
 def exData : List Nat := [1, 2, 3, 4, 5, 6, 7, 8, 9, 10, 11, 12]
-example : exData.length = 3 * 4 := by decide
+example : 3 * 4 ≤ exData.length ∧ 3 * 4 < usizeMax := by decide
 example : Shape.chain exOps (Shape.from 3 4)
     = { start := 1, end_ := 11, width := 3, height := 2, row_stride := 4, col_stride := 1 } := by decide
 example : specChain exOps (indexMatrix 3 4) = [[1, 2, 3], [5, 6, 7]] := by decide
@@ -198,8 +262,21 @@ example : iter (Shape.chain exOps (Shape.from 3 4)) exData
     = some [(1, 2), (2, 3), (3, 4), (5, 6), (6, 7), (7, 8)] := by decide
 example : (fill (Shape.chain exOps (Shape.from 3 4)) exData 0).map (fun st => (st.data, st.touched))
     = some ([1, 0, 0, 0, 5, 0, 0, 0, 9, 10, 11, 12], [1, 2, 3, 5, 6, 7]) := by decide
-example : (SurfModel.Shape.insert (Shape.chain exOps (Shape.from 3 4)) exData 0 2 [70, 80, 90]).data
-    = [1, 2, 3, 70, 5, 80, 90, 8, 9, 10, 11, 12] := by decide
+example : (SurfModel.Shape.insert (Shape.chain exOps (Shape.from 3 4)) exData 0 2 [70, 80, 90]).map (·.data)
+    = some [1, 2, 3, 70, 5, 80, 90, 8, 9, 10, 11, 12] := by decide
+example : (SurfModel.Shape.insert (Shape.chain exOps (Shape.from 3 4)) exData (2 ^ 63) 0 [70]).map (·.data) = none := by
+  decide
+/-- `nth(usize::MAX)` saturates: nothing is yielded afterwards, no cell twice -/
+example : iterMutNthSeq (Shape.chain exOps (Shape.from 3 4)) 12 [0, usizeMax, 0, usizeMax - 3] 0
+    = [some 1, none, none, none] := by decide
+/-- `set` outside of the window (but inside the parent) panics, inside it writes one cell -/
+example : SurfModel.Shape.set (Shape.chain exOps (Shape.from 3 4)) exData 0 3 0 = none := by decide
+example : (SurfModel.Shape.set (Shape.chain exOps (Shape.from 3 4)) exData 1 2 0).map (fun p => (p.1.data, p.2))
+    = some ([1, 2, 3, 4, 5, 6, 7, 0, 9, 10, 11, 12], 8) := by decide
+/-- a `from_vec` root: two cells more than `h * w` -/
+example : 3 * 4 ≤ (exData ++ [13, 14]).length ∧
+    (fill (Shape.chain exOps (Shape.from 3 4)) (exData ++ [13, 14]) 0).map (·.data)
+      = some [1, 0, 0, 0, 5, 0, 0, 0, 9, 10, 11, 12, 13, 14] := by decide
 /-- zero extents and a window that dies: a 3 × 0 surface transposed, and an out-of-range row index -/
 example : (Shape.chain [.transpose] (Shape.from 3 0)).height = 0 ∧ specChain [.transpose] (reshape 3 0 ([] : List Nat)) = [] := by decide
 example : Shape.chain [.view (.idxS 3) .full] (Shape.from 3 4) = ⟨0, 0, 0, 0, 0, 0⟩ := by decide
